@@ -130,6 +130,9 @@ def c14_p7(ctx, f, rid="C14.P7"):
 
         def apply(state, seq):
             """seq: [(setter path, 0|1)] -> (state | None, why)"""
+            # vectors live in heap objects: every sequence starts from its own copy of the initial value, so that what one
+            # sequence appends is not seen by the next
+            state = peval._deep_clone(pe, state)
             for path, k in seq:
                 vals, sub, fn = calls[path]
                 r = pe.call(path, [("cell", 0)] + list(vals[k]), cells=[state], subst=sub)
